@@ -23,7 +23,9 @@ fn main() {
             "error identity is not compared, only Ok / Err class (the property says 'an identical symbol table, or an error')".into(),
         ];
         let fam_a = family_a(if thorough { 4 } else { 3 });
-        let fam_b_short = family_b(SHORT_RECORDS, "short");
+        let mut fam_b_short = family_b(SHORT_RECORDS, "short");
+        // files with empty lines inside groups: valid or not, the outcome must not depend on the chunking
+        fam_b_short.extend(family_gappy());
         let fam_b = family_b(RECORDS, "full");
         let tiny = family_tiny();
         let a = Arc::new(fam_a);
